@@ -111,7 +111,7 @@ def parse_vspec(path):
                 cur_src = {"file": os.path.join(REPO, args[0]), "rel": args[0], "keep": [], "drop": [],
                            "external": [], "contracts": {}, "vec_places": [], "hoists": [],
                            "strip_derives": [], "for_rewrite": [], "chain_hoists": [],
-                           "item_stubs": {}, "macro_stubs": {}, "item_attrs": {}, "ident_renames": {}, "item_inject": {}, "trait_sized": [], "expr_hoists": [], "inherent_copy": [], "outlines": [],
+                           "item_stubs": {}, "macro_stubs": {}, "item_attrs": {}, "ident_renames": {}, "item_inject": {}, "trait_sized": [], "expr_hoists": [], "inherent_copy": [], "outlines": [], "break_to_return": [], "str_places": [],
                            "external_all": False, "verify": [], "strlit_facts": False, "parse_f64": False, "phf_stub": {}, "bitflags_stub": False, "known_lits": [], "strlit_named": False}
                 unit["sources"].append(cur_src)
             elif d == "keep":
@@ -124,6 +124,10 @@ def parse_vspec(path):
                 cur_src["strip_derives"].append(rest)
             elif d == "for_rewrite":
                 cur_src["for_rewrite"].append(rest)
+            elif d == "break_to_return":
+                cur_src["break_to_return"].append(rest)
+            elif d == "str_place":
+                cur_src["str_places"].append(rest.replace(" ", ""))
             elif d == "inherent_copy":
                 cur_src["inherent_copy"].append(rest)
             elif d == "trait_sized":
